@@ -260,6 +260,38 @@ func caseC19(t TB, prog *Program) {
 					e.failf("%s: Search(%q, %q, %s) cannot be evaluated (%s) but returned %d objects (search err=%v collect err=%v)", when, l.Path, l.Op, l.V, cls, n, serr, cerr)
 				}
 			}
+			// the same triple as a refinement of a valid search; And with something that
+			// cannot be evaluated must not return objects either
+			for _, conn := range []string{"and", "or"} {
+				conn := conn
+				var nn int
+				p, stk, hung := protect("chain", func() {
+					s := e.db.Search(&Doc{}, "I64", "!=", int64(-987654321))
+					if conn == "and" {
+						s = s.And(l.Path, l.Op, l.V.Iface(docPathIndex[l.Path]))
+					} else {
+						s = s.Or(l.Path, l.Op, l.V.Iface(docPathIndex[l.Path]))
+					}
+					objs, _ := s.Collect()
+					nn = len(objs)
+				})
+				fail(fmt.Sprintf("%s: Search(valid).%s(%q, %q, %s)", when, conn, l.Path, l.Op, l.V), p, stk, hung)
+				// (Or with a right-hand side that evaluates to nothing legitimately keeps the left-hand
+				// matches, e.g. a pattern on a numeric field: only And is judged on its result)
+				if conn == "and" && cls != OK && nn > 0 {
+					e.failf("%s: Search(valid).%s(%q, %q, %s) cannot be evaluated (%s) but returned %d objects", when, conn, l.Path, l.Op, l.V, cls, nn)
+				}
+			}
+		}
+		// after failed searches every call must still return (no lock left behind)
+		if len(args) > 0 {
+			p, stk, hung := protect("write after failed searches", func() {
+				d := &Doc{S: "probe-after-failed-search"}
+				if err := e.db.InsertOrUpdate(d); err == nil {
+					e.db.Delete(d)
+				}
+			})
+			fail(when+": InsertOrUpdate+Delete after the hostile searches", p, stk, hung)
 		}
 	}
 	runArgs("empty collection")
